@@ -255,6 +255,21 @@ func c17layouts(e *env) {
 					}
 				}
 			}
+			if !relative && kind == "ok" && (e.r.chance(1, 3) || (li == 1 && req == 0)) {
+				// absolute but not lexically clean spellings of the same files
+				for j, f := range spelled {
+					d, b := filepath.Dir(f), filepath.Base(f)
+					switch (j + li) % 3 {
+					case 0:
+						spelled[j] = filepath.Dir(d) + "/../" + filepath.Base(filepath.Dir(d)) + "/" + filepath.Base(d) + "/" + b
+					case 1:
+						spelled[j] = d + "//" + b
+					default:
+						spelled[j] = d + "/./" + b
+					}
+				}
+				e.m.count("layout_unclean_absolute_spelling")
+			}
 			pkgs, dir, err, class, msg := c17load(spelled)
 			if dir != "" {
 				dir = filepath.Clean(dir)
